@@ -209,7 +209,7 @@ public:
   template <typename Iter>
   MinHeap(Iter b, Iter e, const Cmp& cmp = Cmp())
       : container(b, e), revCmp(cmp) {
-    std::make_heap(container.begin(), container.end());
+    std::make_heap(container.begin(), container.end(), revCmp);
   }
 
   bool empty() const { return container.empty(); }
